@@ -156,6 +156,9 @@ def extract_table(cf, rep):
 
 
 def run(repo, rep, tier):
+    rep.rule("R-C04-v1", "no partition list is rebuilt through a dict keyed by a computed statistic (equal keys collide: a basin found by the watershed would be dropped)")
+    from .round7b import float_keyed_collections
+    float_keyed_collections(repo, rep, "R-C04-v1", ("wavespectra.partition.",))
     rep.rule("R-C04-11", "(shared with C07) the wrapper holds the GIL around partition(): the basins are built in process-wide work arrays, two interleaved "
                          "calls mix the levels, the sort table and the label map of different spectra")
     from .c07 import gil_held as _gil
